@@ -710,12 +710,17 @@ macro_rules! mean_machine {
                 let mut o: Obs = Vec::with_capacity(6 + plan.confs.len());
                 let n = s.sample_count();
                 o.push((What::Count(0), Val::U(n as u64)));
-                if n >= 1 || plan.unguarded {
+                // scalar accessors are only asked where they are defined (they are not
+                // interval-computing entry points: their behaviour on tiny states is outside
+                // C11); the interval is asked regardless when the plan is unguarded
+                if n >= 1 {
                     o.push((What::Mean(0), scalar(|| s.sample_mean().w())));
                 }
-                if n >= 2 || plan.unguarded {
+                if n >= 2 {
                     observe_var::<F, Self>(s, &mut o);
                     o.push((What::Sem(0), scalar(|| s.sample_sem().w())));
+                }
+                if n >= 2 || plan.unguarded {
                     for &c in plan.confs {
                         o.push((What::Ci(c), Val::Ci(call(|| s.ci_mean(conf(c)), |i| iv_f(&i)))));
                     }
@@ -909,11 +914,13 @@ impl<F: Fl> Machine for MPaired<F> {
         let mut o: Obs = Vec::new();
         let n = s.sample_count();
         o.push((What::Count(0), Val::U(n as u64)));
-        if n >= 1 || plan.unguarded {
+        if n >= 1 {
             o.push((What::Mean(0), scalar(|| s.sample_mean().w())));
         }
-        if n >= 2 || plan.unguarded {
+        if n >= 2 {
             o.push((What::Sem(0), scalar(|| s.sample_sem().w())));
+        }
+        if n >= 2 || plan.unguarded {
             for &c in plan.confs {
                 o.push((What::Ci(c), Val::Ci(call(|| s.ci_mean(conf(c)), |i| iv_f(&i)))));
             }
@@ -1116,10 +1123,10 @@ impl<F: Fl> Machine for MUnpaired<F> {
             let n = st.sample_count();
             ns[k as usize] = n;
             o.push((What::Count(k), Val::U(n as u64)));
-            if n >= 1 || plan.unguarded {
+            if n >= 1 {
                 o.push((What::Mean(k), scalar(|| st.sample_mean().w())));
             }
-            if n >= 2 || plan.unguarded {
+            if n >= 2 {
                 o.push((What::Var(k), scalar(|| st.sample_variance().w())));
                 o.push((What::Sd(k), scalar(|| st.sample_std_dev().w())));
                 o.push((What::Sem(k), scalar(|| st.sample_sem().w())));
